@@ -90,6 +90,13 @@ func (r *run) outerLock(t int, st Step) func() {
 		callAt := r.elapsed()
 		r.wCalls[t] = callAt
 		r.wPending++
+		// nothing outstanding: no reader inside or on its way, no other writer
+		free := !r.shutdown && len(r.wCalls) == 1
+		for u, ot := range r.th {
+			if u != t && (ot.inside || ot.ph == phInLock || ot.ph == phInUnlock) {
+				free = false
+			}
+		}
 		for _, ot := range r.th {
 			if ot.inside && ot.firstW == 0 {
 				ot.firstW = callAt // the first writer that has to wait for this reader
@@ -106,6 +113,10 @@ func (r *run) outerLock(t int, st Step) func() {
 		r.mu.Lock()
 		r.logTicks(grantAt)
 		r.wPending--
+		if free && r.c.GraceMs >= 4 && grantAt-callAt >= time.Duration(r.c.GraceMs)*time.Millisecond*3/4 {
+			r.viol = append(r.viol, violation{"outercancel-error-return-holds-reader", fmt.Sprintf("writer %d was granted only %v after its call (grace %dms) although no reader and no writer was outstanding: something a finished or failed acquisition left behind held it up", t, grantAt-callAt, r.c.GraceMs)})
+			r.abort.Store(true)
+		}
 		th.ph, th.unlock = phHolding, fn
 		if !r.shutdown {
 			if w := r.occW[0].Add(1); w != 1 {
@@ -179,8 +190,37 @@ func (r *run) outerObserve() {
 			os = append(os, o)
 		}
 	}
+	if !r.shutdown {
+		// no residue: the registry holds exactly the readers that are inside and whose rcancel has not
+		// run (an acquisition that reported an error holds nothing)
+		for try := 0; ; try++ {
+			reg := r.oc.VerifRegistered()
+			want := 0
+			for _, th := range r.th {
+				if th.inside && th.ph == phHolding && th.rctx != nil && !(th.rctx.Err() != nil && context.Cause(th.rctx) == errOuter) {
+					want++
+				}
+			}
+			if reg == want {
+				break
+			}
+			if try >= 3 {
+				id := "outer-registry-lost-reader"
+				if reg > want {
+					id = "outercancel-error-return-holds-reader"
+				}
+				r.viol = append(r.viol, violation{id, fmt.Sprintf("%d reader registration(s) in rcancels, but %d reader(s) hold the lock with a context that rcancel has not cancelled", reg, want)})
+				r.abort.Store(true)
+				break
+			}
+			time.Sleep(300 * time.Microsecond)
+		}
+	}
 	el := r.elapsed()
 	r.logTicks(el)
+	// every caller is idle or blocked and every internal goroutine is blocked (settle): no model
+	// goroutine may have an enabled step left (timers excepted)
+	r.s.log("probe t=0 p=quiet")
 	for _, o := range os {
 		th := r.th[o.t]
 		switch {
@@ -245,6 +285,18 @@ func outerForced(thorough bool) []*Case {
 		// shutdown with readers inside; Lock keeps working, RLock fails
 		add("shutdown", 4, g, lk(0, 0, "r", false), lk(1, 0, "r", false), Step{Do: "close"}, sl(1),
 			lk(2, 0, "w", false), lk(3, 0, "r", false), ul(2, false, false), ul(0, false, false), ul(1, false, false))
+		// a reader queued behind another waiting reader is cancelled while it waits; afterwards a writer
+		// must not be held up by anything the failed acquisition left behind
+		for rep := 0; rep < 4; rep++ {
+			add("queued-reader-cancel", 4, g+15, lk(0, 0, "w", false), lk(1, 0, "r", false), lk(2, 0, "r", false),
+				Step{Do: "cancel", T: 2}, ul(0, false, false), ul(1, false, false), ul(2, false, false),
+				lk(3, 0, "w", false), ul(3, false, false))
+			// cancellation racing the grant: the writer unlocks while the waiting reader's context ends
+			for _, us := range []int{0, 2, 5, 10, 20, 50} {
+				add("cancel-racing-grant", 3, g+15, lk(0, 0, "w", false), lk(1, 0, "r", false),
+					Step{Do: "race", T: 1, K: 0, Us: us + rep}, ul(1, false, false), lk(2, 0, "w", false), ul(2, false, false))
+			}
+		}
 		// shutdown while a writer waits for the grace period
 		add("shutdown-during-grace", 3, g, lk(0, 0, "r", false), lk(1, 0, "w", false), Step{Do: "close"}, sl(1),
 			ul(1, false, false), ul(0, false, false))
